@@ -301,3 +301,5 @@ def run(rep, program: Program, tier: str) -> None:
     rule_r3(rep, program)
     rule_r4(rep, program)
     rule_r5(rep, program)
+    # a derivative that updates a cached array in place is wrong from its second evaluation on (shared with C09-R9)
+    c09.rule_r9(rep, program, prop=PROP, rule="R6")
